@@ -424,8 +424,78 @@ def exHistoryC12 : List (Op × Env) :=
 example : (repliesTo 2 9 (step (run (init exCfgC12) exHistoryC12).1 (.recv 2 (.members 9 exC1 (some 0) (some 4294967295))) {}).2).length = 1 := by
   decide +kernel
 
+/-! ## replies that do not fit `max_message_size` (common/src/conn.rs `serialize_message_inner`) -/
+
+/-- what the connection loop writes for a queued frame: a frame that does not fit the message buffer and bears an id is replaced by
+    `ERROR RESPONSE_TOO_LARGE` with that id; one without an id cannot be written at all (the write fails and the connection ends) -/
+def fitOrReplace (fits : Frame → Bool) (f : Frame) : Option Frame :=
+  if fits f then some f
+  else match f.corrId with
+    | some i => some (.error (some i) .responseTooLarge)
+    | none => none
+
+def substEmit (fits : Frame → Bool) (e : Emit) : Emit := { e with frame := (fitOrReplace fits e.frame).getD e.frame }
+
+def substOut (fits : Frame → Bool) (out : List Emit) : List Emit := out.map (substEmit fits)
+
+theorem fitOrReplace_corrId {fits : Frame → Bool} {f g : Frame} (h : fitOrReplace fits f = some g) : g.corrId = f.corrId := by
+  unfold fitOrReplace at h
+  split at h
+  · cases h; rfl
+  · split at h
+    · next i hi => cases h; rw [hi]; rfl
+    · cases h
+
+theorem fitOrReplace_error {fits : Frame → Bool} {f g : Frame} (h : fitOrReplace fits f = some g) (id : Option Nat) (r : Reason)
+    (hf : f = .error id r) : ∃ id' r', g = .error id' r' := by
+  unfold fitOrReplace at h
+  split at h
+  · cases h; exact ⟨id, r, hf⟩
+  · split at h
+    · cases h; exact ⟨_, _, rfl⟩
+    · cases h
+
+theorem substEmit_corrId (fits : Frame → Bool) (e : Emit) : (substEmit fits e).frame.corrId = e.frame.corrId := by
+  unfold substEmit
+  cases hg : fitOrReplace fits e.frame with
+  | none => rfl
+  | some g => exact fitOrReplace_corrId hg
+
+/-- **C12 under the size limit**: replacing oversized replies keeps the verdict — still exactly one frame with the request's id
+    (the reply or `RESPONSE_TOO_LARGE` in its place), or the closing ERROR -/
+theorem C12_substitution_keeps_answer (fits : Frame → Bool) (k i : Nat) (out : List Emit)
+    (hw : ∀ e ∈ out, (fitOrReplace fits e.frame).isSome) (h : Answered k i out) :
+    Answered k i (substOut fits out) := by
+  rcases h with h | ⟨e, he, hk, hc, id, r, hf⟩
+  · left
+    have : (repliesTo k i (substOut fits out)).length = (repliesTo k i out).length := by
+      unfold repliesTo substOut
+      rw [List.filter_map, List.length_map]
+      congr 1
+      apply List.filter_congr
+      intro e _
+      simp only [Function.comp, substEmit_corrId]
+      rfl
+    rw [this]; exact h
+  · right
+    obtain ⟨g, hg⟩ := Option.isSome_iff_exists.mp (hw e he)
+    obtain ⟨id', r', hg'⟩ := fitOrReplace_error hg id r hf
+    refine ⟨substEmit fits e, List.mem_map.mpr ⟨e, he, rfl⟩, hk, hc, id', r', ?_⟩
+    simp [substEmit, hg, hg']
+
+/-- … and still no frame with a foreign id -/
+theorem C12_substitution_no_foreign_id (fits : Frame → Bool) (k i : Nat) (out : List Emit) (h : NoForeignId k i out) :
+    NoForeignId k i (substOut fits out) := by
+  intro e' he' hk'
+  unfold substOut at he'
+  obtain ⟨e, he, rfl⟩ := List.mem_map.mp he'
+  rw [substEmit_corrId]
+  exact h e he hk'
+
 end Narwhal.Server
 
 #print axioms Narwhal.Server.C12_one_reply
 #print axioms Narwhal.Server.C12_no_foreign_id
 #print axioms Narwhal.Server.C12_idless_closes
+#print axioms Narwhal.Server.C12_substitution_keeps_answer
+#print axioms Narwhal.Server.C12_substitution_no_foreign_id
